@@ -17,16 +17,21 @@ change.  The keyword grammar of scipy's `fit` is the hand-written model `fitTarg
 
 clause                                               theorem(s)
 ---------------------------------------------------  -----------------------------------------------
-fixed value from construction on (any call style)    ctor_table_complete, ctor_fixed_wins, ctor_fixed_wins_semantic
+fixed value from construction on (any call style)    ctor_table_complete, ctor_fixed_wins (incl. one entry per parameter of
+                                                       the family), ctor_fixed_wins_semantic (every parameter of the family)
 used by every evaluation                             C05.override_law (rows with fixed ≠ ∅: `leafFor` puts `farg p`
-                                                       into every slot of p), fixed_used_in_evaluation
-fitting succeeds for every proper subset (MLE):      fit_table_complete, fit_keywords_accepted_and_targeted
+                                                       into every slot of p), fixed_used_in_evaluation (the rows obey the
+                                                       override law AND return, except the one documented refusal),
+                                                       fixed_evaluation_returns
+fitting succeeds for every proper subset (MLE):      fit_table_complete, fit_keywords_accepted_and_targeted (incl.
+                                                       `.parameters` afterwards has one entry per parameter of the family)
   keywords accepted by scipy's grammar, pin exactly
   the slots the parameter map assigns to the subset,
   at the mapped values
 a family without shape parameters (ScipyDistribution  noshape_scipy_shapes, noshape_fit_pins (f_loc ↦ slot `loc` only,
   subclass of gumbel_r declared via `scipy_dist`)      f_scale ↦ slot `scale` only, in scipy's grammar for NO shapes)
-still that value after fitting                       fixed_survives_fit_partial (+ simpInv_sound): proven under the
+still that value after fitting                       fixed_survives_fit_partial (+ simpInv_sound), applied to every
+                                                       generated row by fixed_survives_fit_rows_partial: proven under the
                                                        CONTRACT "fit returns a pinned slot unchanged" and over ℝ
                                                        (log (exp v) = v, 1/(1/v) = v). FULL STATEMENT (scipy honours
                                                        the contract; |after − f| ≤ 1e-12·|f| in floating point; free
@@ -34,8 +39,14 @@ still that value after fitting                       fixed_survives_fit_partial 
   draw_sample (not in the generated call table)      no theorem: OBSERVED per run (harness/c11.py check_draw, seeded comparison
                                                        with the instance constructed with the effective values; instance
                                                        and ConditionalDistribution, scalar / array conditioning value)
-least squares where implemented                      ew_lsq_supported_sets
-conditional distributions: constant in `given`       cond_fixed_const, condParamValue_fixed
+least squares where implemented                      ew_lsq_supported_sets_observed: `ok` / `kept` of an `LsqRow` are booleans
+                                                       recorded from ONE concrete `_fit_lsq` run per (family, fixed set) on a
+                                                       fixed sample; the theorem is about that recorded table (which fixed sets
+                                                       are implemented / refused), NOT about all data (observed: harness/c11.py)
+conditional distributions: constant in `given`       cond_table_complete, cond_fixed_const (one entry per parameter of the family),
+                                                       cond_fixed_const_semantic
+                                                       (condParamValue_fixed_trivial: `rfl` about a definition used nowhere
+                                                       else; not part of the evidence for the clause)
 defects this found (DESIGN 4 #2, #3, #4)             ctor_counterexample_old_vonmises,
                                                        fit_counterexample_old_gengamma, fit_counterexample_old_vonmises
 -/
@@ -56,15 +67,37 @@ theorem ctor_table_complete : ctorTableComplete families ctorRows = true := by d
 /-- for every family, every subset of fixed parameters and every calling style (values before
 or after the `f_` keywords, positional values, every free parameter explicitly `f_<q>=None`, no values at all): a fixed parameter *is* the fixed
 value and is remembered as fixed, a free one is the given value / a literal default -/
-theorem ctor_fixed_wins : ctorRows.all ctorRowOk = true := by decide +kernel
+theorem ctor_fixed_wins : ctorRows.all (ctorRowOk families) = true := by decide +kernel
 
 /-- rows with fixed parameters of the call table: every evaluation method of an instance with
-`f_p` set uses the fixed value for `p` (directly, and through a ConditionalDistribution) -/
+`f_p` set uses the fixed value for `p` (directly, and through a ConditionalDistribution).
+`getRowOkWith` alone accepts a row whose call RAISED (`result = none`); the second conjunct
+(`raiseOk`, the predicate of `C05.refusal_only_documented`) closes that: the call returns unless it
+is the one documented refusal (LogNormalNormFit with exactly one explicit parameter). -/
 theorem fixed_used_in_evaluation :
-    ((getRows.filter fun r => r.fixed != []).all fun r => getRowOkWith baseMaps[r.fam]? r) = true := by
+    ((getRows.filter fun r => r.fixed != []).all fun r =>
+      getRowOkWith baseMaps[r.fam]? r && raiseOk families r) = true := by
   decide +kernel
 
-theorem cond_fixed_const : condRows.all condRowOk = true := by decide +kernel
+/-- the rows in which the fixed value is the one in force for every fixed parameter (nothing
+explicit, or through a ConditionalDistribution) all RETURN and obey the override law: no fixed
+evaluation passes by raising -/
+theorem fixed_evaluation_returns :
+    ((getRows.filter fun r => r.fixed != [] && (r.expl == [] || r.mode == 2)).all fun r =>
+      r.result.isSome && getRowOkWith baseMaps[r.fam]? r) = true := by
+  decide +kernel
+
+/-- for every family and every subset of fixed parameters `ConditionalDistribution._get_param_values`
+returns one value per parameter of the family: the fixed value (no leaf depending on the
+conditioning value) for a fixed one, the dependence function's value for any other -/
+theorem cond_fixed_const : condRows.all (condRowOk families) = true := by decide +kernel
+
+/-- `condRows` has a row for every family and every NON-EMPTY subset of fixed parameters -/
+theorem cond_table_complete :
+    ((List.range families.length).all fun i => match families[i]? with
+      | none => false
+      | some f => (subsetsBelow f.params.length).all fun F =>
+          F == [] || condRows.any fun r => r.fam == i && r.fixed == F) = true := by decide +kernel
 
 theorem fit_table_complete : fitTableComplete families fitRows = true := by decide +kernel
 
@@ -92,35 +125,92 @@ theorem noshape_fit_pins :
     [([], some ("gumbel_r", none, none)), ([0], some ("gumbel_r", some (.farg 0), none)),
      ([1], some ("gumbel_r", none, some (.farg 1))), ([0, 1], none)] := by decide +kernel
 
-theorem ew_lsq_supported_sets : lsqRows.all (lsqRowOk families) = true := by decide +kernel
+/-- OBSERVED TABLE, not a theorem about all data: `LsqRow.ok` / `.kept` are booleans recorded from
+ONE concrete `fit(data, "lsq")` run per (family, fixed set) on a fixed sample of THIS run. What is
+proved is that in this record least squares returned with the fixed parameters bit-identical exactly
+for the exponentiated Weibull with nothing / only `delta` fixed and refused with
+`NotImplementedError` everywhere else. "Kept for any data" is observed by harness/c11.py. -/
+theorem ew_lsq_supported_sets_observed : lsqRows.all (lsqRowOk families) = true := by decide +kernel
 
 /-! ## semantics -/
 
 section semantics
 variable {α : Type} [Add α] [Sub α] [Mul α] [Div α] [Neg α]
 
+/-- semantic reading of `ctor_fixed_wins` for EVERY parameter of the family (not only the recorded
+ones): the row records one value and one `f_` attribute per parameter; for every valuation of the
+symbols a fixed parameter evaluates to the fixed value and is remembered as fixed, a free one is
+not marked fixed and, if a value was given, evaluates to that value. -/
 theorem ctor_fixed_wins_semantic (T : Tr α) (ρ : Env α) (r : CtorRow) (hr : r ∈ ctorRows) :
-    ∃ ps fs, r.result = some (ps, fs) ∧
-      ∀ p, p ∈ r.fixed → p < ps.length → (ps[p]?.map (PExpr.eval T ρ)) = some (ρ.farg p) := by
+    ∃ f ps fs, families[r.fam]? = some f ∧ r.result = some (ps, fs) ∧
+      ps.length = f.params.length ∧ fs.length = f.params.length ∧
+      ∀ p, p < f.params.length →
+        (p ∈ r.fixed → (ps[p]?.map (PExpr.eval T ρ)) = some (ρ.farg p) ∧
+          fs[p]? = some (some (.farg p))) ∧
+        (p ∉ r.fixed → fs[p]? = some none ∧
+          (p ∈ r.given → (ps[p]?.map (PExpr.eval T ρ)) = some (ρ.arg p))) := by
   have h := (List.all_eq_true.mp ctor_fixed_wins) r hr
   unfold ctorRowOk at h
   cases hres : r.result with
   | none => rw [hres] at h; exact absurd h (by simp)
   | some pf =>
     obtain ⟨ps, fs⟩ := pf
-    rw [hres] at h
-    refine ⟨ps, fs, rfl, fun p hp hlt => ?_⟩
-    have hp' := (List.all_eq_true.mp h) p (List.mem_range.2 hlt)
-    rw [if_pos hp] at hp'
-    simp only [Bool.and_eq_true, beq_iff_eq] at hp'
-    rw [hp'.1]
-    rfl
+    cases hf : families[r.fam]? with
+    | none => rw [hres, hf] at h; exact absurd h (by simp)
+    | some f =>
+      rw [hres, hf] at h
+      simp only [Bool.and_eq_true, beq_iff_eq] at h
+      obtain ⟨⟨hl1, hl2⟩, hall⟩ := h
+      refine ⟨f, ps, fs, rfl, rfl, hl1, hl2, fun p hlt => ?_⟩
+      have hp' := (List.all_eq_true.mp hall) p (List.mem_range.2 hlt)
+      refine ⟨fun hp => ?_, fun hp => ?_⟩
+      · rw [if_pos hp] at hp'
+        simp only [Bool.and_eq_true, beq_iff_eq] at hp'
+        rw [hp'.1]
+        exact ⟨rfl, hp'.2⟩
+      · rw [if_neg hp] at hp'
+        simp only [Bool.and_eq_true, beq_iff_eq] at hp'
+        refine ⟨hp'.1, fun hg => ?_⟩
+        have h2 := hp'.2
+        rw [if_pos hg] at h2
+        rw [beq_iff_eq.mp h2]
+        rfl
+
+/-- semantic reading of `cond_fixed_const`: for every generated row and every parameter `p` of the
+family that is fixed, the value `_get_param_values` returns for `p` evaluates to the fixed value
+under ANY two valuations that agree on the fixed values (in particular: for any two conditioning
+values, which only enter through the `dep` leaves) -/
+theorem cond_fixed_const_semantic (T : Tr α) (ρ ρ' : Env α) (hfx : ρ.farg = ρ'.farg)
+    (r : CondRow) (hr : r ∈ condRows) :
+    ∃ f ps, families[r.fam]? = some f ∧ r.result = some ps ∧ ps.length = f.params.length ∧
+      ∀ p, p < f.params.length → p ∈ r.fixed →
+        (ps[p]?.map (PExpr.eval T ρ)) = some (ρ.farg p) ∧
+        (ps[p]?.map (PExpr.eval T ρ)) = (ps[p]?.map (PExpr.eval T ρ')) := by
+  have h := (List.all_eq_true.mp cond_fixed_const) r hr
+  unfold condRowOk at h
+  cases hres : r.result with
+  | none => rw [hres] at h; exact absurd h (by simp)
+  | some ps =>
+    cases hf : families[r.fam]? with
+    | none => rw [hres, hf] at h; exact absurd h (by simp)
+    | some f =>
+      rw [hres, hf] at h
+      simp only [Bool.and_eq_true, beq_iff_eq] at h
+      obtain ⟨hl, hall⟩ := h
+      refine ⟨f, ps, rfl, rfl, hl, fun p hlt hp => ?_⟩
+      have hp' := (List.all_eq_true.mp hall) p (List.mem_range.2 hlt)
+      rw [if_pos hp] at hp'
+      rw [beq_iff_eq.mp hp']
+      refine ⟨rfl, ?_⟩
+      show some (ρ.farg p) = some (ρ'.farg p)
+      rw [hfx]
 
 end semantics
 
-/-- `ConditionalDistribution._get_param_values`: a parameter without a dependence function has
-the stored fixed value for every conditioning value -/
-theorem condParamValue_fixed {γ β : Type} (v : β) (g g' : γ) :
+/-- TRIVIAL (`rfl` twice): unfolds the definition `condParamValue`, which nothing else uses (the
+driver does not run it, no table refers to it). Kept for the record only; the clause "constant in
+the conditioning value" rests on `cond_fixed_const` / `cond_fixed_const_semantic`. -/
+theorem condParamValue_fixed_trivial {γ β : Type} (v : β) (g g' : γ) :
     condParamValue (none : Option (γ → β)) v g = v ∧
     condParamValue (none : Option (γ → β)) v g = condParamValue (none : Option (γ → β)) v g' :=
   ⟨rfl, rfl⟩
@@ -160,12 +250,59 @@ theorem fixed_survives_fit_partial (ρ : Env ℝ) (h1 : ρ.ofInt 1 = 1) (r : Fit
     rw [← simpInv_sound ρ h1, h]
     rfl
 
+/-- shape names and keywords in force for a recorded `_fit_mle` run (`notCalled`: no keywords) -/
+def fitKws (r : FitRow) : Option (List String × List (String × PExpr)) :=
+  match r.outcome with
+  | .called dist _ kws => (shapesOf scipyShapes dist).map fun sh => (sh, kws)
+  | .notCalled => some ([], [])
+  | .raised _ => none
+
+/-- `fixed_survives_fit_partial` tied to the generated table (same CONTRACT, same FULL STATEMENT
+missing): for EVERY recorded `_fit_mle` run with a proper subset of the family's parameters fixed,
+the run did not raise, scipy knows the distribution called, `.parameters` afterwards has one entry
+per parameter of the family, and every fixed parameter of the family evaluates over ℝ, for every
+valuation of the symbols, to its fixed value. -/
+theorem fixed_survives_fit_rows_partial (ρ : Env ℝ) (h1 : ρ.ofInt 1 = 1) (r : FitRow)
+    (hr : r ∈ fitRows) (f : Family) (hf : families[r.fam]? = some f)
+    (hproper : r.fixed.length < f.params.length) :
+    ∃ shapes kws, fitKws r = some (shapes, kws) ∧ r.after.length = f.params.length ∧
+      ∀ p, p ∈ r.fixed → p < f.params.length →
+        (r.after[p]?.map fun e => (afterFit shapes kws e).eval realTr ρ) = some (ρ.farg p) := by
+  have h := (List.all_eq_true.mp fit_keywords_accepted_and_targeted) r hr
+  simp only [hf, Bool.and_eq_true, beq_iff_eq, Bool.or_eq_true, Bool.not_eq_true',
+    decide_eq_false_iff_not] at h
+  obtain ⟨hlen, hor⟩ := h
+  have hrow : fitRowOk scipyShapes baseMaps[r.fam]? r = true := by
+    rcases hor with h | h
+    · exact absurd hproper h
+    · exact h
+  unfold fitRowOk at hrow
+  unfold fitKws
+  cases hout : r.outcome with
+  | raised e => rw [hout] at hrow; exact absurd hrow (by simp)
+  | notCalled =>
+    rw [hout] at hrow
+    refine ⟨[], [], rfl, hlen, fun p hp hlt => ?_⟩
+    exact fixed_survives_fit_partial ρ h1 r [] [] hrow p hp (hlen ▸ hlt)
+  | called dist starts kws =>
+    rw [hout] at hrow
+    cases hsh : shapesOf scipyShapes dist with
+    | none => simp [hsh] at hrow
+    | some shapes =>
+      cases hb : baseMaps[r.fam]? with
+      | none => simp [hsh, hb] at hrow
+      | some b =>
+        obtain ⟨d0, slots⟩ := b
+        simp only [hsh, hb, Bool.and_eq_true] at hrow
+        refine ⟨shapes, kws, by simp [hsh], hlen, fun p hp hlt => ?_⟩
+        exact fixed_survives_fit_partial ρ h1 r shapes kws hrow.2 p hp (hlen ▸ hlt)
+
 /-! ## the old code, as counterexamples (what the proof attempts produced) -/
 
 /-- `VonMisesDistribution(kappa=…, mu=…, f_kappa=…)` before the fix stored the plain value -/
 theorem ctor_counterexample_old_vonmises :
-    ctorRowOk { fam := 6, given := [0, 1], fixed := [0], order := 0,
-                result := some ([.arg 0, .arg 1], [some (.farg 0), none]) } = false := by decide
+    ctorRowOk families { fam := 6, given := [0, 1], fixed := [0], order := 0,
+                         result := some ([.arg 0, .arg 1], [some (.farg 0), none]) } = false := by decide +kernel
 
 /-- `GeneralizedGammaDistribution(f_m=…)._fit_mle` before the fix: `fshape1` is not in the grammar -/
 theorem fit_counterexample_old_gengamma :
@@ -197,10 +334,23 @@ example : ∃ r ∈ ctorRows, r.fam = 9 ∧ r.fixed = [0] ∧ r.given = [] ∧
 /-- calling style 3 (`loc=…, scale=…, f_loc=…, f_scale=None`): the free parameter keeps its value, unmarked -/
 example : ∃ r ∈ ctorRows, r.fam = 9 ∧ r.fixed = [0] ∧ r.order = 3 ∧
     r.result = some ([.farg 0, .arg 1], [some (.farg 0), none]) := by decide +kernel
-example : ∃ r ∈ ctorRows, r.fam = 6 ∧ r.fixed = [0] ∧ r.order = 1 ∧ ctorRowOk r = true := by
+example : ∃ r ∈ ctorRows, r.fam = 6 ∧ r.fixed = [0] ∧ r.order = 1 ∧ ctorRowOk families r = true := by
   decide +kernel
 example : ∃ r ∈ lsqRows, r.fam = 4 ∧ r.fixed = [2] ∧ r.ok = true ∧ r.kept = true := by decide +kernel
 example : (PExpr.log (.exp (.farg 0))).simpInv = .farg 0 ∧
     (PExpr.div (.int 1) (.div (.int 1) (.farg 2))).simpInv = .farg 2 := by decide
+
+/-- the parameter-count conjuncts are not idle: rows that dropped a parameter are rejected
+(before this round `ctorRowOk`, `condRowOk`, `afterOk` ran over the RECORDED list and accepted them) -/
+example : ctorRowOk families { fam := 0, given := [], fixed := [], order := 0, result := some ([], []) } = false ∧
+    condRowOk families { fam := 0, fixed := [0], result := some [] } = false ∧
+    fitTableOk families scipyShapes baseMaps [{ fam := 0, fixed := [0], outcome := .notCalled, after := [] }]
+      = false := by decide +kernel
+/-- `fixed_survives_fit_rows_partial` is not vacuous: a generated row with a proper subset fixed -/
+example : ∃ r ∈ fitRows, ∃ f ∈ families, families[r.fam]? = some f ∧ r.fixed = [0] ∧
+    r.fixed.length < f.params.length := by
+  decide +kernel
+/-- a row of a fixed evaluation that returned (so `fixed_evaluation_returns` speaks about something) -/
+example : ∃ r ∈ getRows, r.fixed = [0] ∧ r.expl = [] ∧ r.result.isSome = true := by decide +kernel
 
 end VirVerif.C11
